@@ -426,6 +426,9 @@ def withBlock (env : Env W HS) (cm : Val) (body : Exec W HS) : Exec W HS := fun 
      | (.ok _, w) => (c, { st1 with w := w })
      | (.err e', w) => (.exc e', { st1 with w := w }))
 
+/-- every name an import statement binds gets a value -/
+def padVals (n : Nat) (vals : List Val) : List Val := vals ++ List.replicate (n - vals.length) .noneV
+
 def optTargetNames : Option Target → List String
   | none => []
   | some t => t.names
@@ -514,14 +517,14 @@ def execS (env : Env W HS) (fuel : Nat) : Stmt → Exec W HS
         execB env fuel b)
   | .defn name src loads => fun st =>
     stepM (liftW (env.host.bindStmt src (loads.map fun x => (x, lookupV env st x)))) (fun vals =>
-      stepM (do setLoc name vals.head?; postBind1 env name) fun _ => done .normal) st
+      stepM (do setLoc name (some (vals.headD .noneV)); postBind1 env name) fun _ => done .normal) st
   | .cls name src loads => fun st =>
     stepM (liftW (env.host.bindStmt src (loads.map fun x => (x, lookupV env st x)))) (fun vals =>
-      stepM (do setLoc name vals.head?; postBind1 env name) fun _ => done .normal) st
+      stepM (do setLoc name (some (vals.headD .noneV)); postBind1 env name) fun _ => done .normal) st
   | .imp bound src =>
     stepM (liftW (env.host.bindStmt src [])) fun vals =>
       stepM (do
-        (bound.zip vals).forM (fun (x, v) => setLoc x (some v))
+        (bound.zip (padVals bound.length vals)).forM (fun (x, v) => setLoc x (some v))
         postBind env bound) fun _ => done .normal
   | .glob _ => done .normal
   | .nonloc _ => done .normal
